@@ -23,6 +23,7 @@ mod refint;
 mod replay;
 mod report;
 mod rx;
+mod wide;
 
 use report::Tier;
 
@@ -49,6 +50,15 @@ fn main() {
         let i = args.get(2).and_then(|s| s.parse().ok()).unwrap_or(0);
         let j = args.get(3).and_then(|s| s.parse().ok()).unwrap_or(0);
         std::process::exit(c12::pair_child(i, j));
+    }
+    if args[1] == "dbg-wide" {
+        let t = std::time::Instant::now();
+        let st = wide::run(args.get(2).map(|s| s == "thorough").unwrap_or(false), false);
+        println!("wide: evaluations={} transitions={} nontrivial={} violations={} {:?} in {:.1}s", st.evaluations, st.transitions, st.nontrivial, st.violations.len(), st.counters, t.elapsed().as_secs_f64());
+        for v in &st.violations {
+            println!("  {} | {}", v.signature, v.witness.chars().take(300).collect::<String>());
+        }
+        return;
     }
     if args[1] == "dbg-order" {
         // optimise the rules given as YAML files in order, print verdicts on the document f = argv[2]
